@@ -1,10 +1,21 @@
-import Rtsp.Model.UrlFlow
+import Rtsp.Proofs.UrlFidelity
 /-
 Property C20 — URL fidelity: path, query and track resolution agree between client and server.
-(theorems are added below as they are proved; see props/C20.json)
+
+Model: `Model/Url.lean` (base.ParseURL / URL.String / CloneWithoutCredentials, server path / query /
+track analysis, client base-URL choice and control resolution, at byte-string level) and
+`Model/UrlFlow.lean` (whole sessions).  The theorems quantify over ALL well-formed URL values
+(`WF`, `InScope`): any authority the parser accepts, any escaped path beginning with `/`, any query —
+including look-alikes of the server's own `/trackID=` tag, `=`, `&`, `/`, `@`, percent-escapes.
+
+`InScope u` is the property's quantifier: `WF u` (the URL is printed back as it was parsed, i.e. the
+restriction `ParseURL(s).String() == s` the harness checks per case), decoded path not ending in `/`,
+query not ending in `/`.
 -/
 namespace Rtsp.Url
 open Rtsp.Facts
+
+/-! ## the model constants are the ones of /repo -/
 
 /-- The string constants of the model are the ones found in /repo (regenerated on every run): the two
 `stringsReverseIndex` tags and the slice offsets use the same text, the server and the publishing client
@@ -27,5 +38,140 @@ theorem facts_tie :
     Facts.Url.requestLineWithoutCredentials = 2 ∧ Facts.Url.requestLineWithCredentials = 0 ∧
     Facts.Url.cloneWithoutCredentialsFields = true := by
   decide
+
+/-! ## the two sides of the protocol, as the Go code composes them -/
+
+/-- Server, DESCRIBE: what the handler sees (`ctx.Path`, `ctx.Query`) and the `Content-Base` it answers. -/
+def serverDescribe (target : Str) : Option (Str × Str × Str) :=
+  match serverURL target with
+  | some su => some ((getPathAndQuery su false).1, (getPathAndQuery su false).2, contentBase su)
+  | none => none
+
+/-- Server, every method except SETUP and DESCRIBE (`isAnnounce` for ANNOUNCE). -/
+def serverPathQuery (target : Str) (isAnnounce : Bool) : Option (Str × Str) :=
+  match serverURL target with
+  | some su => some (getPathAndQuery su isAnnounce)
+  | none => none
+
+/-- Server, SETUP when playing: path, query and track id. -/
+def serverSetup (target : Str) : Option (Str × Str × Str) :=
+  match serverURL target with
+  | some su => getPathAndQueryAndTrackID su
+  | none => none
+
+/-- Client: base URL from the DESCRIBE response (no session-level control attribute). -/
+def clientBase (u : Url) (contentBase : Option Str) : Option Url :=
+  findBaseURL none (contentBase.map fun v => [v]) u
+
+/-- Client: request target of the SETUP for a media with control attribute `ctl`. -/
+def clientSetupTarget (base : Url) (ctl : Str) : Option Str :=
+  match mediaURL ctl (some base) with
+  | .url mu => some (requestTarget (some mu))
+  | _ => none
+
+/-! ## theorems -/
+
+/-- **DESCRIBE / ANNOUNCE / RECORD / PAUSE on the original URL.**  The server parses the request line the
+client writes for `u` and its handlers see exactly `u`'s path and query. -/
+theorem request_fidelity {u : Url} (h : InScope u) (isAnnounce : Bool) :
+    serverPathQuery (requestTarget (some u)) isAnnounce = some (u.path, u.rawQuery) := by
+  unfold serverPathQuery
+  rw [serverURL_target h.wf]
+  simp only [gpq_self h.withoutCredentials isAnnounce]
+  rfl
+
+/-- **SETUP round trip** (DESIGN: `serverSplit (clientJoin (contentBase p q) (control n)) = (p, q, n)`).
+For every in-scope URL and every media index `n`: the DESCRIBE handler sees the original path and query;
+the client resolves the server's `Content-Base` and the control attribute `trackID=n` to a SETUP target
+from which the server recovers exactly the original path, the original query and the track id `n`
+— whatever the path and the query contain. -/
+theorem setup_roundtrip {u : Url} (h : InScope u) (n : Nat) :
+    ∃ cb base t,
+      serverDescribe (requestTarget (some u)) = some (u.path, u.rawQuery, cb) ∧
+      clientBase u (some cb) = some base ∧
+      clientSetupTarget base (control n) = some t ∧
+      serverSetup t = some (u.path, u.rawQuery, digits n) := by
+  have hnc := h.withoutCredentials
+  refine ⟨contentBase u.withoutCredentials, extend u [47],
+    (extend u.withoutCredentials (trackTag ++ digits n)).toStr, ?_, ?_, ?_, ?_⟩
+  · unfold serverDescribe
+    rw [serverURL_target h.wf]
+    simp only [gpq_self hnc false]
+    rfl
+  · exact findBaseURL_contentBase h.wf
+  · unfold clientSetupTarget
+    rw [mediaURL_contentBase h n]
+    simp only [requestTarget_some, extend_withoutCredentials]
+  · unfold serverSetup
+    have hw : WF (extend u.withoutCredentials (trackTag ++ digits n)) :=
+      hnc.wf.extend (by rw [List.all_append, digits_plain, trackTag_eq]; decide) (by rw [trackTag_eq]; simp)
+    rw [serverURL_toStr hw]
+    exact gpqt_setup hnc n
+
+/-- The same without a `Content-Base` header (the client falls back to the request URL), for the relative
+control `trackID=n` and for the leading-slash style `/trackID=n`. -/
+theorem setup_roundtrip_no_content_base {u : Url} (h : InScope u) (n : Nat) :
+    clientBase u none = some u ∧
+    ∃ t, clientSetupTarget u (control n) = some t ∧
+      clientSetupTarget u (47 :: control n) = some t ∧
+      serverSetup t = some (u.path, u.rawQuery, digits n) := by
+  have hnc := h.withoutCredentials
+  refine ⟨rfl, (extend u.withoutCredentials (trackTag ++ digits n)).toStr, ?_, ?_, ?_⟩
+  · unfold clientSetupTarget
+    rw [mediaURL_self h n]
+    simp only [requestTarget_some, extend_withoutCredentials]
+  · unfold clientSetupTarget
+    rw [mediaURL_self_slash h n]
+    simp only [requestTarget_some, extend_withoutCredentials]
+  · unfold serverSetup
+    have hw : WF (extend u.withoutCredentials (trackTag ++ digits n)) :=
+      hnc.wf.extend (by rw [List.all_append, digits_plain, trackTag_eq]; decide) (by rw [trackTag_eq]; simp)
+    rw [serverURL_toStr hw]
+    exact gpqt_setup hnc n
+
+/-- **Each SETUP reaches the media it was issued for** (playing): the track id the server wrote into the
+control attribute of media `n` selects media `n` of a stream with `k > n` medias. -/
+theorem setup_reaches_media {k n : Nat} (hk : n < k) (hn : n ≤ maxTrackID) :
+    findMediaByTrackID k (digits n) = some n :=
+  findMediaByTrackID_digits hk hn
+
+/-- **PLAY / PAUSE / TEARDOWN / keep-alive round trip.**  These requests carry the base URL (the
+`Content-Base`, with its trailing slash); the handlers still see exactly the original path and query. -/
+theorem play_roundtrip {u : Url} (h : InScope u) :
+    ∃ cb base,
+      serverDescribe (requestTarget (some u)) = some (u.path, u.rawQuery, cb) ∧
+      clientBase u (some cb) = some base ∧
+      serverPathQuery (requestTarget (some base)) false = some (u.path, u.rawQuery) := by
+  have hnc := h.withoutCredentials
+  refine ⟨contentBase u.withoutCredentials, extend u [47], ?_, findBaseURL_contentBase h.wf, ?_⟩
+  · unfold serverDescribe
+    rw [serverURL_target h.wf]
+    simp only [gpq_self hnc false]
+    rfl
+  · unfold serverPathQuery
+    have hb : WF (extend u [47]) := h.wf.extend slash_plain (by simp)
+    rw [serverURL_target hb, extend_withoutCredentials]
+    simp only [gpq_base hnc]
+    rfl
+
+/-- **Record: each announced media's URL finds exactly that media** (relative controls `trackID=i`, as
+the library client announces them; any number `k` of medias).  Excluded: a URL whose text ends in a bare
+`?` (`forceQuery`), see known-findings. -/
+theorem record_media_lookup {u : Url} (h : InScope u) (hq : u.forceQuery = false) {k i : Nat} (hi : i < k) :
+    serverPathQuery (requestTarget (some u)) true = some (u.path, u.rawQuery) ∧
+    ∃ t su,
+      clientSetupTarget u (control i) = some t ∧
+      serverURL t = some su ∧
+      findMediaByURL ((List.range k).map control) u.path u.rawQuery su = some i := by
+  have hnc := h.withoutCredentials
+  refine ⟨request_fidelity h true, (extend u.withoutCredentials (trackTag ++ digits i)).toStr,
+    extend u.withoutCredentials (trackTag ++ digits i), ?_, ?_, ?_⟩
+  · unfold clientSetupTarget
+    rw [mediaURL_self h i]
+    simp only [requestTarget_some, extend_withoutCredentials]
+  · have hw : WF (extend u.withoutCredentials (trackTag ++ digits i)) :=
+      hnc.wf.extend (by rw [List.all_append, digits_plain, trackTag_eq]; decide) (by rw [trackTag_eq]; simp)
+    exact serverURL_toStr hw
+  · exact findMediaByURL_controls h hq hi
 
 end Rtsp.Url
